@@ -98,7 +98,7 @@ CHECKS = {
              "sat_alone_is_not_preserved shows the hypothesis cannot be plain sat). hsatb is evaluated inside Coq for the "
              "schema of every plain case of a run; where it holds the usability oracle on /repo accepts no excuse.",
         note=COMMON_NOTE + "No open known finding. F08, F09, F10 (NaN), F11, F22, F28, F31 (a '...' member of "
-             "an untyped dict) were repaired by fix: commits.",
+             "an untyped dict), F38 (the substitutor's own messages for values repr() cannot print) were repaired by fix: commits.",
         technique="Coq proof (outcome-class invariant + fixpoint lemma by nested induction over schemas and values) + vm_compute correspondence + direct oracle",
         design="6 C12"),
     "C18": dict(
@@ -183,7 +183,8 @@ CHECKS = {
              "boundary universe run on /repo and compared with the model; oracle: exception class, receiver unchanged, "
              "validate(result, value), re-declaration rejected.",
         note=COMMON_NOTE + "Python arity errors (TypeError) are outside the property (arity_ok). F10 (NaN), "
-             "F12, F13, F32 (deeply nested pattern: RecursionError) repaired by fix: commits.",
+             "F12, F13, F32 (deeply nested pattern: RecursionError), F39 (DeclarationError messages for ints beyond the "
+             "int->str digit limit; probe of chains with unprintable arguments) repaired by fix: commits.",
         technique="Coq proof (guard-ladder case analysis + invariant preservation) + vm_compute correspondence over enumerated chains + direct oracle",
         design="6 C10"),
     "C11": dict(
